@@ -205,4 +205,5 @@ def run(tier):
     from .. import engio, oblig as _ob
     _ob.run_obligations(chk, engio.progress_obligations())
     engio.ready_state(chk)
+    engio.offered_regions(chk)
     return chk.finish()
